@@ -34,7 +34,7 @@ def sh(cmd, **kw):
 def _hash_files(paths, extra=""):
     h = hashlib.sha1(extra.encode())
     for p in sorted(paths):
-        h.update(p.encode())
+        h.update(os.path.basename(p).encode())
         try:
             with open(p, "rb") as f:
                 h.update(f.read())
@@ -54,7 +54,7 @@ def ensure_cfg(kind):
     """cmake configure only: config.h / json_config.h / json.h for this tree."""
     srcs = [os.path.join(REPO, "CMakeLists.txt")] + glob.glob(os.path.join(REPO, "cmake", "*")) + \
         glob.glob(os.path.join(REPO, "*.in")) + glob.glob(os.path.join(REPO, "*.cmakein"))
-    key = _hash_files(srcs, kind + REPO)
+    key = _hash_files([os.path.relpath(p, REPO) for p in srcs] and srcs, kind)
     d = os.path.join(BUILD, f"{kind}-{key}")
     if os.path.exists(os.path.join(d, "config.h")) and os.path.exists(os.path.join(d, "json.h")):
         os.utime(d)
@@ -100,7 +100,7 @@ def ensure_lib(variant):
     return d, cfg, objs
 
 
-MC_SOURCES = ["mc/mc.c", "mc/vf.c", "mc/vmodel.c"]
+MC_SOURCES = ["mc/mc.c", "mc/vf.c", "mc/vmodel.c", "mc/bfs.c"]
 
 
 def ensure_exe(harness, variant, extra_sources=(), extra_cflags=(), extra_ld=()):
